@@ -44,13 +44,8 @@ func StreamIDOf(m *rtmp.Message) (uint32, error) {
 		return 0, err
 	}
 	b := buf.Bytes()
+	// the library writer always emits a 1-byte basic header (chunk stream id & 0x3f)
 	off := 1
-	switch b[0] & 0x3f {
-	case 0:
-		off = 2
-	case 1:
-		off = 3
-	}
 	if len(b) < off+11 {
 		return 0, fmt.Errorf("short re-serialisation %x", b)
 	}
